@@ -142,7 +142,12 @@ func (c caseT) tokens() []int64 {
 	for _, ni := range nameTable {
 		out = append(out, ni.id, vh.B(ni.tracked), vh.B(ni.plsup))
 	}
-	p := c.pod
+	out = append(out, encPod(c.pod)...)
+	return out
+}
+
+func encPod(p podT) []int64 {
+	out := []int64{}
 	conts := func(l []contT) {
 		out = append(out, int64(len(l)))
 		for _, x := range l {
@@ -185,6 +190,58 @@ func (c caseT) tokens() []int64 {
 	return out
 }
 
+// one pod delivered through the cache's event handlers: AddPod(v[0]), UpdatePod(v[0],v[1]), ...
+type versionT struct {
+	meta metaT
+	vols []int64
+	pod  podT
+}
+type historyT struct {
+	ippvs, plr, ippl, dra bool
+	vs                    []versionT
+}
+
+func (h historyT) tokens() []int64 {
+	out := []int64{vh.B(h.ippvs), vh.B(h.plr), vh.B(h.ippl), vh.B(h.dra), int64(len(nameTable))}
+	for _, ni := range nameTable {
+		out = append(out, ni.id, vh.B(ni.tracked), vh.B(ni.plsup))
+	}
+	out = append(out, int64(len(h.vs)))
+	for _, v := range h.vs {
+		out = append(out, v.meta.phase, vh.B(v.meta.node), vh.B(v.meta.deleting), int64(len(v.vols)))
+		out = append(out, v.vols...)
+		out = append(out, encPod(v.pod)...)
+	}
+	return out
+}
+
+func decodeHistory(in []int64) historyT {
+	r := &tokReader{t: in}
+	h := historyT{ippvs: r.flag(), plr: r.flag(), ippl: r.flag(), dra: r.flag()}
+	if int(r.next()) != len(nameTable) {
+		panic("name table length")
+	}
+	for _, ni := range nameTable {
+		if r.next() != ni.id || r.flag() != ni.tracked || r.flag() != ni.plsup {
+			panic("name table mismatch")
+		}
+	}
+	n := int(r.next())
+	for i := 0; i < n; i++ {
+		v := versionT{meta: metaT{phase: r.next(), node: r.flag(), deleting: r.flag()}}
+		nv := int(r.next())
+		for j := 0; j < nv; j++ {
+			v.vols = append(v.vols, r.next())
+		}
+		decodePod(r, &v.pod)
+		h.vs = append(h.vs, v)
+	}
+	if r.i != len(in) {
+		panic("trailing tokens")
+	}
+	return h
+}
+
 type tokReader struct {
 	t []int64
 	i int
@@ -204,26 +261,7 @@ func (r *tokReader) rl() rlT {
 	return out
 }
 
-func decode(in []int64) caseT {
-	r := &tokReader{t: in}
-	c := caseT{ippvs: r.flag(), plr: r.flag(), ippl: r.flag(), dra: r.flag()}
-	c.meta = metaT{phase: r.next(), node: r.flag(), deleting: r.flag()}
-	if c.meta.phase < 0 || int(c.meta.phase) >= len(phases) {
-		panic("phase out of range")
-	}
-	nv := int(r.next())
-	for i := 0; i < nv; i++ {
-		c.vols = append(c.vols, r.next())
-	}
-	n := int(r.next())
-	if n != len(nameTable) {
-		panic("name table length")
-	}
-	for _, ni := range nameTable {
-		if r.next() != ni.id || r.flag() != ni.tracked || r.flag() != ni.plsup {
-			panic("name table mismatch")
-		}
-	}
+func decodePod(r *tokReader, p *podT) {
 	conts := func() []contT {
 		n := int(r.next())
 		out := []contT{}
@@ -247,7 +285,6 @@ func decode(in []int64) caseT {
 		}
 		return out
 	}
-	p := &c.pod
 	p.cs = conts()
 	p.is = conts()
 	p.cst = stats()
@@ -272,6 +309,29 @@ func decode(in []int64) caseT {
 	for i := 0; i < ncl; i++ {
 		p.claims = append(p.claims, r.rl())
 	}
+}
+
+func decode(in []int64) caseT {
+	r := &tokReader{t: in}
+	c := caseT{ippvs: r.flag(), plr: r.flag(), ippl: r.flag(), dra: r.flag()}
+	c.meta = metaT{phase: r.next(), node: r.flag(), deleting: r.flag()}
+	if c.meta.phase < 0 || int(c.meta.phase) >= len(phases) {
+		panic("phase out of range")
+	}
+	nv := int(r.next())
+	for i := 0; i < nv; i++ {
+		c.vols = append(c.vols, r.next())
+	}
+	n := int(r.next())
+	if n != len(nameTable) {
+		panic("name table length")
+	}
+	for _, ni := range nameTable {
+		if r.next() != ni.id || r.flag() != ni.tracked || r.flag() != ni.plsup {
+			panic("name table mismatch")
+		}
+	}
+	decodePod(r, &c.pod)
 	if r.i != len(in) {
 		panic("trailing tokens")
 	}
@@ -675,7 +735,79 @@ func compute(c caseT) results {
 	return r
 }
 
+// ---------- events through the real cache handlers ----------
+
+type eventObs struct {
+	up              *api.Resource // NewResource(PodRequests(pod object of this event))
+	rq, irq, used   *api.Resource
+}
+
+func bigNode() *v1.Node {
+	al := v1.ResourceList{v1.ResourceCPU: resource.MustParse("100000"), v1.ResourceMemory: resource.MustParse("1000Ti"),
+		v1.ResourcePods: resource.MustParse("1000"), v1.ResourceEphemeralStorage: resource.MustParse("1000Ti")}
+	for _, ni := range nameTable {
+		al[ni.name] = resource.MustParse("1000000000")
+	}
+	n := &v1.Node{}
+	n.Name = "n1"
+	n.Status.Allocatable = al
+	n.Status.Capacity = al.DeepCopy()
+	return n
+}
+
+// delivers the versions of one pod to a fresh mock cache: AddPod, then UpdatePod(previous, current)
+func runHistory(h historyT) []eventObs {
+	setGates(caseT{ippvs: h.ippvs, plr: h.plr, ippl: h.ippl, dra: h.dra})
+	sc := schedcache.NewDefaultMockSchedulerCache("volcano")
+	if err := sc.AddOrUpdateNode(bigNode()); err != nil {
+		panic(err)
+	}
+	var prev *v1.Pod
+	var out []eventObs
+	for i, v := range h.vs {
+		if v.meta.phase != 1 && v.meta.phase != 2 || !v.meta.node || v.meta.deleting || len(v.vols) != 0 {
+			panic("event family: the pod must be Pending or Running, bound, not deleting, without claim volumes")
+		}
+		pod := buildPod(v.pod, v.meta)
+		pod.Annotations = map[string]string{"scheduling.k8s.io/group-name": "pg1"}
+		pod.ResourceVersion = fmt.Sprint(10 + i)
+		want := api.NewResource(helpers.PodRequests(pod, upstreamOpts()))
+		if prev == nil {
+			sc.AddPod(pod.DeepCopy())
+		} else {
+			sc.UpdatePod(prev.DeepCopy(), pod.DeepCopy())
+		}
+		prev = pod
+		sc.Mutex.Lock()
+		var task *api.TaskInfo
+		for _, job := range sc.Jobs {
+			for _, ti := range job.Tasks {
+				if ti.Name == pod.Name {
+					task = ti
+				}
+			}
+		}
+		node := sc.Nodes["n1"]
+		if task == nil || node == nil || len(node.Tasks) != 1 {
+			sc.Mutex.Unlock()
+			panic("event family: the pod's task is not in the cache / not on its node after the event")
+		}
+		out = append(out, eventObs{up: want, rq: task.Resreq.Clone(), irq: task.InitResreq.Clone(), used: node.Used.Clone()})
+		sc.Mutex.Unlock()
+	}
+	return out
+}
+
 func run(sel int, in []int64) []int64 {
+	if sel == 3 {
+		var out []int64
+		for _, e := range runHistory(decodeHistory(in)) {
+			for _, x := range [][]int64{tag(20), encRes(e.rq), encRes(e.irq), encRes(e.used)} {
+				out = append(out, x...)
+			}
+		}
+		return out
+	}
 	if sel != 1 && sel != 2 {
 		panic("unknown selector")
 	}
@@ -816,6 +948,23 @@ func sameRequest(up, vc *api.Resource) bool {
 func laws(sel int, in, got []int64, law func(lsel int, lin []int64, sig string)) {
 	if sel == 2 {
 		return // refutation witnesses: outside the theorem by construction
+	}
+	if sel == 3 {
+		h := decodeHistory(in)
+		for _, v := range h.vs {
+			if v.pod.negative() || v.pod.namesCollide() || v.pod.untrackedPodLevel() || v.pod.offGrid() {
+				return
+			}
+		}
+		// after EVERY event: cached task == upstream's request of the pod object of that event, node Used too
+		for _, e := range runHistory(h) {
+			var o []int64
+			for _, x := range [][]int64{encRes(e.up), encRes(e.rq), encRes(e.irq), encRes(e.used)} {
+				o = append(o, x...)
+			}
+			law(107, o, "")
+		}
+		return
 	}
 	c := decode(in)
 	p := c.pod
@@ -1057,6 +1206,114 @@ func genPod(r *vh.Rng, g genCfg) podT {
 	return p
 }
 
+func cloneRl(l rlT) rlT { return append(rlT{}, l...) }
+
+func clonePod(p podT) podT {
+	q := p
+	q.cs, q.is = nil, nil
+	for _, c := range p.cs {
+		c.req = cloneRl(c.req)
+		q.cs = append(q.cs, c)
+	}
+	for _, c := range p.is {
+		c.req = cloneRl(c.req)
+		q.is = append(q.is, c)
+	}
+	cp := func(l []statT) (o []statT) {
+		for _, x := range l {
+			x.res, x.alloc = cloneRl(x.res), cloneRl(x.alloc)
+			o = append(o, x)
+		}
+		return
+	}
+	q.cst, q.ist = cp(p.cst), cp(p.ist)
+	q.oh, q.pl, q.pst, q.pal = cloneRl(p.oh), cloneRl(p.pl), cloneRl(p.pst), cloneRl(p.pal)
+	q.conds = append([][2]bool{}, p.conds...)
+	q.claims = nil
+	for _, c := range p.claims {
+		q.claims = append(q.claims, cloneRl(c))
+	}
+	return q
+}
+
+func namesIn(p podT) []int64 {
+	seen := map[int64]bool{2: true, 3: true}
+	for _, l := range p.lists() {
+		for _, x := range l {
+			seen[x.k] = true
+		}
+	}
+	out := []int64{}
+	for k := range seen {
+		out = append(out, k)
+	}
+	sort.Slice(out, func(i, j int) bool { return out[i] < out[j] })
+	return out
+}
+
+// a new STATUS for the same spec: container / init-container statuses near the spec, resize conditions,
+// pod-level status resources
+func fillStatus(r *vh.Rng, g genCfg, p *podT) {
+	pool := namesIn(*p)
+	p.cst, p.ist, p.conds = nil, nil, nil
+	mk := func(c contT) statT {
+		s := statT{name: c.name, hasRes: !r.Chance(1, 6)}
+		if s.hasRes {
+			s.res = nearRl(r, g, c.req, pool)
+		}
+		if r.Chance(2, 3) {
+			s.alloc = nearRl(r, g, c.req, pool)
+		}
+		return s
+	}
+	for _, c := range p.cs {
+		if r.Chance(5, 6) {
+			p.cst = append(p.cst, mk(c))
+		}
+	}
+	for _, c := range p.is {
+		if r.Chance(5, 6) {
+			p.ist = append(p.ist, mk(c))
+		}
+	}
+	switch r.Intn(5) {
+	case 0:
+		p.conds = [][2]bool{{true, true}}
+	case 1:
+		p.conds = [][2]bool{{true, false}}
+	case 2:
+		p.conds = [][2]bool{{false, false}, {true, true}}
+	}
+	if p.hasPl && g.podStatus {
+		p.hasPst = !r.Chance(1, 4)
+		p.pst, p.pal = nil, nil
+		if p.hasPst {
+			p.pst = nearRl(r, g, p.pl, []int64{2, 3, 7})
+		}
+		if r.Chance(1, 2) {
+			p.pal = nearRl(r, g, p.pl, []int64{2, 3, 7})
+		}
+	}
+}
+
+// a resized SPEC: requests of some containers move (what an in-place resize patches)
+func mutateSpec(r *vh.Rng, g genCfg, p *podT) {
+	pool := namesIn(*p)
+	for i := range p.cs {
+		if r.Chance(2, 3) {
+			p.cs[i].req = nearRl(r, g, p.cs[i].req, pool)
+		}
+	}
+	for i := range p.is {
+		if p.is[i].sidecar && r.Chance(1, 2) {
+			p.is[i].req = nearRl(r, g, p.is[i].req, pool)
+		}
+	}
+	if p.hasPl && r.Chance(1, 2) {
+		p.pl = nearRl(r, g, p.pl, []int64{2, 3, 7})
+	}
+}
+
 func dedup(l rlT) rlT {
 	out := rlT{}
 	for i, x := range l {
@@ -1198,6 +1455,55 @@ func gen(rng *vh.Rng, n int, emit func(id string, sel int, in []int64, kind stri
 	for _, name := range []string{"fractional-memory", "status-name-collision", "untracked-pod-level", "incoming-with-status"} {
 		c := caseT{ippvs: true, plr: true, ippl: true, meta: metaT{phase: 1}, pod: wit[name]}
 		emit("witness-"+name, 2, c.tokens(), "witness/"+name, false, describe(c))
+	}
+	// event family: the demo of an admitted resize first (spec 6 cpu; infeasible with status/allocated 1 cpu,
+	// then a status-only update: condition gone, allocated 6 cpu), then random histories
+	{
+		six, one := qty{6, 0}, qty{1, 0}
+		spec := []contT{{name: 1, req: rlT{{2, six}, {3, qty{1024 * Mi, 0}}}}}
+		e1 := podT{cs: spec, conds: [][2]bool{{true, true}}, cst: []statT{{name: 1, hasRes: true, res: rlT{{2, one}, {3, qty{1024 * Mi, 0}}}, alloc: rlT{{2, one}, {3, qty{1024 * Mi, 0}}}}}}
+		e2 := podT{cs: spec, cst: []statT{{name: 1, hasRes: true, res: rlT{{2, one}, {3, qty{1024 * Mi, 0}}}, alloc: rlT{{2, six}, {3, qty{1024 * Mi, 0}}}}}}
+		run2 := metaT{phase: 2, node: true}
+		h := historyT{ippvs: true, plr: true, ippl: true, vs: []versionT{{meta: run2, pod: e1}, {meta: run2, pod: e2}, {meta: run2, pod: e1}}}
+		emit("events-demo-resize-admitted", 3, h.tokens(), "events/demo", true, map[string]any{"events": "add(infeasible) update(status-only: admitted) update(status-only: infeasible again)"})
+	}
+	{
+		r := rng.Fork()
+		for i := 0; i < n/4+1; i++ {
+			h := historyT{ippvs: true}
+			h.plr, h.ippl, h.dra = genGates(r)
+			g := genCfg{status: true, podLevel: 30, podStatus: r.Chance(1, 3), claims: r.Chance(1, 6)}
+			cur := genPod(r, g)
+			m := metaT{phase: vh.Pick(r, []int64{2, 2, 2, 1}), node: true}
+			h.vs = append(h.vs, versionT{meta: m, pod: cur})
+			steps := ""
+			nEv := r.Range(1, 4)
+			for e := 0; e < nEv; e++ {
+				next := clonePod(cur)
+				switch r.Intn(4) {
+				case 0, 1: // status only: the in-place resize state lives in the status
+					fillStatus(r, g, &next)
+					steps += "S"
+				case 2: // spec only
+					mutateSpec(r, g, &next)
+					steps += "P"
+				default:
+					mutateSpec(r, g, &next)
+					fillStatus(r, g, &next)
+					steps += "M"
+				}
+				if m.phase == 1 && r.Chance(1, 2) {
+					m.phase = 2
+				}
+				h.vs = append(h.vs, versionT{meta: m, pod: next})
+				cur = next
+			}
+			nt := false
+			for _, v := range h.vs {
+				nt = nt || nonTrivial(v.pod)
+			}
+			emit(fmt.Sprintf("events-%d", i), 3, h.tokens(), "events/add-update", nt, map[string]any{"events": "add " + steps, "gates": fmt.Sprintf("plr=%t ippl=%t dra=%t", h.plr, h.ippl, h.dra)})
+		}
 	}
 	stream := func(name string, count int, g genCfg, fixGates func(c *caseT)) {
 		r := rng.Fork()
